@@ -41,6 +41,7 @@ def run(tier, seed):
                                "u0": core.dy(ev["u0"]), "u1": core.dy(ev["u1"]), "u2": core.dy(ev["u2"])})
     cx.assumptions += ["lossless limb encoding of doubles (harness/drv/trace.hpp)",
                        "TLC evaluates Trace_C18.tla invariants exactly (Dyadic.tla)"]
+    cx.selftest_corruption("Trace_C18.tla", traces[0], lambda ev: ev["u1"] if ev["e"] == "Unc" and ev["exc"] == "" else None, "Unc1LDef")
     return cx.finish(rule="random MSSM/THDM models per TLC-enumerated class (Cases.tla: C18Cases); a case is "
                           "non-trivial when the model was built without exception and a_mu is finite; distinct "
                           "= distinct (model, bits of a1L, bits of a2L)")
